@@ -999,3 +999,62 @@ def g_getitem_index(rng, level=0, n_random=150):
             yield {'self': pl, 'item': np.zeros(0, dtype=np.int64)}
             continue
         yield {'self': pl, 'item': rng.integers(0, L, int(rng.integers(0, 7))).astype(np.int64)}
+
+
+@gen(U + 'random_clifford.random_clifford_')
+def g_random_clifford_rec(rng, level=0, n_random=60):
+    for k in range(n_random):
+        n = 1 + k % 4
+        yield {'gs': np.zeros((2 * n, 2 * n), dtype=np.int64)}
+    yield {'gs': np.ones((2, 2), dtype=np.int64)}          # not a zero matrix: the requires filter it
+
+
+@gen(U + 'random_clifford')
+def g_random_clifford(rng, level=0, n_random=60):
+    for k in range(n_random):
+        yield {'N': 1 + k % 5}
+
+
+@gen(ST + 'random_clifford_map')
+def g_rcm(rng, level=0, n_random=60):
+    for k in range(n_random):
+        yield {'N': 1 + k % 5}
+
+
+def _g_rstate(with_r, lo):
+    def g(rng, level=0, n_random=60):
+        for k in range(n_random):
+            N = lo + k % 5
+            yield {'N': N, 'r': int(rng.integers(0, N + 1)) if with_r else None}
+    return g
+
+
+gen(ST + 'random_clifford_state#none')(_g_rstate(False, 1))
+gen(ST + 'random_clifford_state#r')(_g_rstate(True, 1))
+gen(ST + 'random_pauli_state#none')(_g_rstate(False, 0))
+gen(ST + 'random_pauli_state#r')(_g_rstate(True, 0))
+
+
+@gen(CI + 'CliffordGate.forward#random_global_state')
+def g_gate_rnd_global(rng, level=0, n_random=60):
+    import pyclifford.circuit as ci
+    for _ in range(n_random):
+        N = int(rng.integers(1, 4))
+        yield {'self': ci.CliffordGate(*range(N)), 'obj': _rand_state(rng, N)}
+
+
+@gen(CI + 'CliffordGate.forward#random_local_state')
+def g_gate_rnd_local(rng, level=0, n_random=80):
+    import pyclifford.circuit as ci
+    for _ in range(n_random):
+        N = int(rng.integers(2, 5))
+        yield {'self': ci.CliffordGate(*_local_qubits(rng, N)), 'obj': _rand_state(rng, N)}
+
+
+@gen(CI + 'CliffordGate.backward#random_state')
+def g_gate_rnd_back(rng, level=0, n_random=80):
+    import pyclifford.circuit as ci
+    for k in range(n_random):
+        N = int(rng.integers(1, 5))
+        q = tuple(range(N)) if (k % 3 == 0 or N == 1) else _local_qubits(rng, N)
+        yield {'self': ci.CliffordGate(*q), 'obj': _rand_state(rng, N)}
